@@ -1,1 +1,2 @@
 pub mod c12_multisig;
+pub mod c16_paych;
